@@ -59,6 +59,8 @@ def _kernel(variant, beta_kind, beta_pre, beta_post):
                       ("bellman-attained", _ATT.format(**post)),
                       ("bellman-lower-bound", _LB.format(**post)),
                       ("first-label-minimises", "forall(lambda c: implies(0 <= c and c < %s, "
+                       "(F[0, :] + label_assignment_cost[0, :])[result[0][0]] <= (F[0, :] + label_assignment_cost[0, :])[c] and "
+                       "(F[0, :] + label_assignment_cost[0, :])[c] == F[0, c] + label_assignment_cost[0, c] and "
                        "F[0, result[0][0]] + label_assignment_cost[0, result[0][0]] <= F[0, c] + label_assignment_cost[0, c]))" % _K),
                       ("path-follows-table", "forall(lambda t: implies(0 <= t and t <= %s - 2, result[0][t + 1] == P[t, result[0][t]]))" % _T),
                       ("cost-is-table-entry", "result[1] == F[0, result[0][0]] + label_assignment_cost[0, result[0][0]]"),
